@@ -107,6 +107,23 @@ def main():
                 msgs.append(record.getMessage())
         logging.getLogger("andes.system").addHandler(H())
         logging.getLogger("andes.system").setLevel(logging.INFO)
+        if args.get("nested"):
+            # a second process creates a System over the same directory of generated code at a chosen point of this one:
+            # after this process has written its files and before it imports them again (CodegenConc: Write(p) ... Reload(p))
+            import subprocess
+            _orig_finalize = andes.system.System._finalize_pycode
+            _state = dict(done=False)
+
+            def _finalize(self_, pycode_path_):
+                if not _state["done"]:
+                    _state["done"] = True
+                    pr = subprocess.run([sys.executable, "-m", "vh.codegen_step", json.dumps(args["nested"])], cwd=args["verif"],
+                                        stdout=subprocess.PIPE, stderr=subprocess.PIPE, env=dict(os.environ), timeout=800)
+                    for line in pr.stdout.decode(errors="replace").splitlines():
+                        if line.startswith("RESULT "):
+                            out["nested_result"] = json.loads(line[7:])
+                return _orig_finalize(self_, pycode_path_)
+            andes.system.System._finalize_pycode = _finalize
         if op == "prepare":
             ss = andes.System(default_config=True, pycode_path=pyc, no_undill=True, no_output=True)
             ss.prepare(quick=True, incremental=False, models=["VProbe"], nomp=True)
